@@ -341,15 +341,17 @@ static void run_line(char *line) {
         begin_input("F", f);
         parseFrame(f->rxbuf, f);
         end_input();
-    } else if (!strcmp(op, "FR") || !strcmp(op, "WR")) { /* FR|WR i n hex: the same frame n times, one logged input (counter wraps) */
+    } else if (!strcmp(op, "FR") || !strcmp(op, "WR")) { /* FR|WR i n hex...: the listed frames n times over, one logged input (counter wraps) */
         vp_iface *f = ifc_of(tok[1]);
         long n = atol(tok[2]);
         begin_input(op, f);
         if (op[0] == 'W') vh_flow_ensure(f);
         for (long k = 0; k < n; k++) {
-            load_rx(f, nt > 3 ? tok[3] : "");
-            if (op[0] == 'W') vh_flow_frame(f);
-            else parseFrame(f->rxbuf, f);
+            for (int t = 3; t < (nt > 3 ? nt : 4); t++) {   /* the listed frames in turn, n times over */
+                load_rx(f, t < nt ? tok[t] : "");
+                if (op[0] == 'W') vh_flow_frame(f);
+                else parseFrame(f->rxbuf, f);
+            }
         }
         if (op[0] == 'W') { snap_M(f); snap_E(f); snap_T(f); }
         end_input();
